@@ -21,6 +21,7 @@ type Mem struct {
 	DMAWritten                             bool
 	JOYP                                   uint8
 	OAMBusy                                int // cycles during which OAM is owned by a DMA transfer
+	ovSeen                                 int
 }
 
 func NewMem(img []byte, counter uint16) *Mem {
@@ -37,10 +38,12 @@ func (m *Mem) LCDOn() bool { return m.LCDC&0x80 != 0 }
 
 // Tick advances one machine cycle.
 func (m *Mem) Tick() {
-	ov := m.Timer.Overflows
 	m.Timer.Tick()
-	if m.Timer.Overflows != ov || m.Timer.Phase == 2 {
+	// an overflow (caused by this tick or by a DIV/TAC write since the last one) requests the
+	// timer interrupt at the overflow or at the reload: the bit is not determined from then on
+	if m.Timer.Overflows != m.ovSeen || m.Timer.Phase == 2 {
 		m.IFDirty |= 0x04
+		m.ovSeen = m.Timer.Overflows
 	}
 	if m.LCDOn() {
 		m.IFDirty |= 0x03
